@@ -184,23 +184,6 @@ Proof.
   repeat match goal with |- context [match ?b with _ => _ end] => destruct b; cbn; try congruence end.
 Qed.
 
-(* once the attempt counter is positive its value no longer matters to prepare *)
-Lemma prepare_attempt_irrel s b :
-  (1 <= r_attempt s)%Z -> (1 <= b)%Z ->
-  prepare detect c (set_attempt s b) = set_attempt (prepare detect c s) b.
-Proof.
-  intros Ha Hb. destruct s as [m rq h ck f q bd gb rd un at_]. cbn [r_attempt] in Ha.
-  unfold prepare, prep_body, prep_body_gen, prep_cookie, prep_header, set_attempt, set_headers, set_cookies, set_form, set_body.
-  cbn -[merge_headers add_values encode_values hfirst hset payload_forbid Z.leb].
-  assert (E1 : (b <=? 0)%Z = false) by lia. assert (E2 : (at_ <=? 0)%Z = false) by lia.
-  do 3 (rewrite ?E1, ?E2, ?andb_false_r;
-        cbn -[merge_headers add_values encode_values hfirst hset payload_forbid Z.leb]).
-  repeat match goal with
-         | |- context [if ?x then _ else _] => destruct x; cbn -[merge_headers add_values encode_values hfirst hset payload_forbid Z.leb]
-         | |- context [match ?x with Some _ => _ | None => _ end] => destruct x; cbn -[merge_headers add_values encode_values hfirst hset payload_forbid Z.leb]
-         end; reflexivity.
-Qed.
-
 Lemma merge_hset_idem ch k0 x h :
   heq (merge_headers ch (hset k0 [x] (merge_headers ch h))) (hset k0 [x] (merge_headers ch h)).
 Proof.
@@ -233,25 +216,74 @@ Proof.
   case_ifs; try (left; reflexivity); right; eexists; reflexivity.
 Qed.
 
+Ltac simp_r :=
+  cbn [r_method r_rawquery r_headers r_cookies r_form r_query r_body r_getbody r_reader r_unreplayable r_attempt
+       set_headers set_cookies set_form set_body set_reader set_attempt].
+
+Lemma hget_hset_same k vs m : hget k (hset k vs m) = vs.
+Proof. rewrite hget_hset, bytes_eqb_refl. reflexivity. Qed.
+
+Lemma hset_known_heq k vs m : hget k m = vs -> heq (hset k vs m) m.
+Proof.
+  intros H k0. rewrite hget_hset. destruct (bytes_eqb k0 k) eqn:E; [|reflexivity].
+  apply bytes_eqb_eq in E. subst k0. symmetry. exact H.
+Qed.
+
+(* what the body stage establishes about its own output *)
+Definition body_settled (Y : rstate) : Prop :=
+  if payload_forbid c (r_method Y) then r_body Y = None /\ r_getbody Y = GBNil
+  else if nonempty (r_form Y) then
+    r_body Y = Some (encode_values (r_form Y)) /\ r_getbody Y = GBStatic (encode_values (r_form Y)) /\
+    hget content_type (r_headers Y) = [form_content_type]
+  else match r_body Y with
+       | None => True
+       | Some bd => nonempty (hfirst content_type (c_headers c)) = true \/
+                    nonempty (hfirst content_type (r_headers Y)) = true \/
+                    hget content_type (r_headers Y) = [detect bd]
+       end.
+
+Lemma prep_body_settles X : body_settled (prep_body detect c X).
+Proof.
+  destruct X as [m rq h ck f q bd gb rd un at_].
+  unfold body_settled, prep_body, prep_body_gen. simp_r. cbn [orb].
+  destruct (payload_forbid c m) eqn:Ef; simp_r.
+  - rewrite Ef. simp_r. split; reflexivity.
+  - destruct (nonempty (c_form c) && (at_ <=? 0)%Z); simp_r;
+    [set (F := add_values (c_form c) f)|set (F := f)];
+    (destruct (nonempty F) eqn:Efm; simp_r;
+     [rewrite Ef, Efm; simp_r; repeat split; apply hget_hset_same|];
+     destruct bd as [bd|]; simp_r;
+     [|rewrite Ef, Efm; simp_r; exact I];
+     destruct (nonempty (hfirst content_type (c_headers c))) eqn:E1; simp_r;
+     [rewrite Ef, Efm; simp_r; left; first [reflexivity|exact E1]|];
+     destruct (nonempty (hfirst content_type h)) eqn:E2; simp_r; rewrite Ef, Efm; simp_r;
+     [right; left; first [reflexivity|exact E2]|right; right; apply hget_hset_same]).
+Qed.
+
+Lemma body_settled_fixed Y b :
+  (1 <= b)%Z -> body_settled Y -> seqv (prep_body detect c (set_attempt Y b)) (set_attempt Y b).
+Proof.
+  intros Hb. assert (E1 : (b <=? 0)%Z = false) by lia.
+  destruct Y as [m rq h ck f q bd gb rd un at_].
+  unfold body_settled, prep_body, prep_body_gen. simp_r. cbn [orb]. rewrite E1, andb_false_r.
+  destruct (payload_forbid c m) eqn:Ef; simp_r.
+  - intros [H1 H2]. subst bd gb. apply seqv_refl.
+  - destruct (nonempty f) eqn:Efm; simp_r.
+    + intros (H1 & H2 & H3). subst bd gb.
+      unfold seqv. simp_r. repeat (split; [reflexivity|]). apply hset_known_heq, H3.
+    + destruct bd as [bd|]; [|intros _; apply seqv_refl].
+      destruct (nonempty (hfirst content_type (c_headers c))) eqn:E2; [intros _; apply seqv_refl|].
+      destruct (nonempty (hfirst content_type h)) eqn:E3; [intros _; apply seqv_refl|].
+      intros [H|[H|H]]; [discriminate H|discriminate H|].
+      unfold seqv. simp_r. repeat (split; [reflexivity|]). apply hset_known_heq, H.
+Qed.
+
 (* the body stage applied to its own output (any positive attempt number) changes nothing *)
 Lemma prep_body_idem X b :
   (1 <= b)%Z ->
   seqv (prep_body detect c (set_attempt (prep_body detect c X) b)) (set_attempt (prep_body detect c X) b).
 Proof.
-  intros Hb. destruct X as [m rq h ck f q bd gb rd un at_].
-  assert (E1 : (b <=? 0)%Z = false) by lia.
-  unfold prep_body, prep_body_gen, set_attempt, set_headers, set_cookies, set_form, set_body.
-  cbn [r_method r_rawquery r_headers r_cookies r_form r_query r_body r_getbody r_reader r_unreplayable r_attempt].
-  repeat (match goal with
-          | |- context [(_ && false)%bool] => rewrite andb_false_r
-          | H : ?x = _ |- context [if ?x then _ else _] => rewrite H
-          | H : ?x = _ |- context [match ?x with Some _ => _ | None => _ end] => rewrite H
-          | |- context [if ?x then _ else _] => destruct x eqn:?
-          | |- context [match ?x with Some _ => _ | None => _ end] => destruct x eqn:?
-          end;
-          cbn [r_method r_rawquery r_headers r_cookies r_form r_query r_body r_getbody r_reader r_unreplayable r_attempt]).
-  all: unfold seqv; cbn [r_method r_rawquery r_headers r_cookies r_form r_query r_body r_getbody r_reader r_unreplayable r_attempt];
-       repeat (split; [reflexivity|]); first [apply heq_refl | apply hset_hset_heq].
+  intros Hb. apply body_settled_fixed; [exact Hb|apply prep_body_settles].
 Qed.
 
 (* the second pass of the middlewares reproduces the state the first pass left *)
